@@ -63,29 +63,40 @@ def window_ok(older, limit, universe, got):
 
 
 def classify_query(q, got):
+    """The key under which a disagreement is registered: when the symptom fits several signatures,
+    one that belongs to an open finding is preferred (a fixed one would be a regression)."""
+    keys = classify_all(q, got)
+    for k in keys:
+        if vlib.known_findings().get(("C07", k), {}).get("status") == "open":
+            return k
+    return keys[0] if keys else None
+
+
+def classify_all(q, got):
     """q: the spec's table row <<older, limit, offset, term, status, class, data, oldest, sigs, scan, alts>>;
     got: the abstracted real reply.  Returns a known-finding key or None."""
     older, limit, offset, cls, sigs = q[0], q[1], q[2], q[5], q[8]
     if got.get("st") == "panic" and "slice bounds out of range" in (got.get("msg") or "") \
             and _sum_negative(limit, offset):
-        return KEY_PANIC
+        return [KEY_PANIC]
+    keys = []
     for name, data, oldest in sigs:
         if name == "skip" and older == 0:
             continue
         if cls == "exact" and got.get("st") == "ok" and list(got.get("data") or []) == list(data) \
                 and got.get("oldest") == oldest:
-            return SIG_KEYS.get(name)
+            keys.append(SIG_KEYS.get(name))
         if cls == "window" and name == "hid":
             # An empty page saying "end", selected entries still to come, and a
             # hidden on-disk record between the cursor and the next of them.
             universe = q[6]
             if got.get("st") == "ok" and not got.get("data") and got.get("oldest") == 0 and universe \
                     and any((older == 0 or h < older) and h > universe[0] for h in data):
-                return KEY_HID
+                keys.append(KEY_HID)
             continue
         if cls == "window" and window_ok(older, limit, data, got):
-            return SIG_KEYS.get(name)
-    return None
+            keys.append(SIG_KEYS.get(name))
+    return [k for k in keys if k]
 
 
 def describe_query(q, got):
@@ -198,8 +209,8 @@ TRACE_EVS = {"init", "rec", "recn", "flush", "flushfail", "autoflushfail", "stal
 def run_history(ctx, hist, nrec, mem=None, big=False):
     tout = ctx.path("c07_trace_%d.ndjson" % hist)
     env = {"VERIF_OUT": tout, "VERIF_C07_HIST": str(hist), "VERIF_C07_RECORDS": str(nrec)}
-    if big == "scanlog":
-        env["VERIF_C07_SCANLOG"] = "1"
+    if isinstance(big, str) and big.startswith("scanlog"):
+        env["VERIF_C07_SCANLOG"] = big.split(":")[1]
     elif big:
         env["VERIF_C07_BIG"] = "1"
     if mem is not None:
@@ -295,7 +306,9 @@ def run(ctx):
 
 def _run_bindings(ctx):
     # ---------------- direction A: the main graph, and a smaller one in which the ignore list changes
-    plan = [("QueryLog.gen.cfg", 3700 if ctx.quick else 0), ("QueryLog.genig.cfg", 800 if ctx.quick else 0)]
+    # thorough: the ignore-list graph completely, the main graph within a step budget that covers
+    # about two thirds of its edge groups (seeded choice; `exhaustive' says whether all were covered).
+    plan = [("QueryLog.gen.cfg", 3700 if ctx.quick else 115000), ("QueryLog.genig.cfg", 800 if ctx.quick else 0)]
     res, by_act, table = [], {}, None
     summ = {k: 0 for k in ("walks", "steps", "queries", "covered", "groups", "bad", "flaky", "discards", "transit", "unobservable")}
     nrows = nstates_obs = nontrivial = 0
@@ -368,23 +381,24 @@ def _run_bindings(ctx):
                 r.get("diff") or "served JSON differs between %s and %s" % (r.get("first_at"), r.get("now_at"))))
 
     # ---------------- direction B
-    nhist, nrec = (2, 300) if ctx.quick else (5, 2000)
+    # Histories of the tier: (memory size or None = seeded, kind).  "scanlog:N" is the scan-window
+    # history with scan limit N: 50000 = the server's limit through the plain handler (thorough only),
+    # 30 = the same history at scale.
+    if ctx.quick:
+        hists, nrec = [(7, False), (None, False), (200, "scanlog:30")], 300
+    else:
+        hists, nrec = [(7, False), (200, True), (None, False), (None, False), (60000, "scanlog:50000"),
+                       (200, "scanlog:30")], 2000
+    nhist = len(hists)
     binding_demo = None
     tlines = tbad = tflaky = 0
     tbytes = 0
     tsamples = []
     for hst in range(nhist):
-        # One history per tier is forced to a small memory so that searches
-        # cross the memory/file/rotated-file boundaries often.
-        mem = 7 if hst == 0 else None
-        # One history of the thorough tier grows its files beyond the reader's 1.6 MB buffer.
-        big = (not ctx.quick) and hst == 1
-        if big:
-            mem = 200
-        if hst == 4:
-            # The log grows beyond the 50000 records one request scans; the
-            # selected entries lie behind them (real handler, real limit).
-            big, mem = "scanlog", 60000
+        # One history per tier is forced to a small memory so that searches cross the
+        # memory/file/rotated-file boundaries often; one of the thorough tier grows its files
+        # beyond the reader's 1.6 MB buffer.
+        mem, big = hists[hst]
         rows_b, sb = run_history(ctx, hst, nrec, mem=mem, big=big)
         if sb.get("discard"):
             ctx.log("history %d discarded: %s" % (hst, sb["discard"]))
